@@ -144,12 +144,15 @@ inductive ArgError where
   | argumentAlreadyPassed
   | argumentTypeMismatch
 
+/-- the imports of the package an instantiation node instantiates -/
+def Graph.instImports (g : Graph) (inst : Nat) : Exports :=
+  match g.node? inst with
+  | some { kind := .inst pkg, .. } => (match g.packages[pkg]? with | some p => p.imports | none => .nil)
+  | _ => .nil
+
 /-- `CompositionGraph::set_instantiation_argument` -/
 def Graph.setInstantiationArgument (g : Graph) (inst : Nat) (name : Str) (arg : Nat) : Except ArgError Graph :=
-  let imports := match g.node? inst with
-    | some { kind := .inst pkg, .. } => (match g.packages[pkg]? with | some p => p.imports | none => .nil)
-    | _ => .nil
-  match exportsIndex name imports 0 with
+  match exportsIndex name (g.instImports inst) 0 with
   | none => .error .invalidArgumentName
   | some (index, expected) =>
     match g.edges.find? (fun e => e.dst == inst && e.index == index) with
